@@ -1412,3 +1412,37 @@ func (f *FS) LastSeq() int {
 	defer f.mu.Unlock()
 	return f.nseq
 }
+
+// Extent is one non-empty page of a file.
+type Extent struct {
+	Off  int64
+	Data []byte
+}
+
+// Extents returns the size and the allocated pages of a regular file (sparse-safe).
+func (f *FS) Extents(p string) (int64, []Extent, bool) {
+	f.mu.Lock()
+	defer f.mu.Unlock()
+	in, err := f.lookup(p, false)
+	if err != nil || in.Kind != KindFile {
+		return 0, nil, false
+	}
+	pgs := make([]int64, 0, len(in.data.pages))
+	for pg := range in.data.pages {
+		pgs = append(pgs, pg)
+	}
+	sort.Slice(pgs, func(i, j int) bool { return pgs[i] < pgs[j] })
+	var out []Extent
+	for _, pg := range pgs {
+		start := pg * pageSize
+		if start >= in.data.size {
+			continue
+		}
+		d := append([]byte(nil), in.data.pages[pg]...)
+		if start+pageSize > in.data.size {
+			d = d[:in.data.size-start]
+		}
+		out = append(out, Extent{Off: start, Data: d})
+	}
+	return in.data.size, out, true
+}
